@@ -23,6 +23,7 @@ import time
 VERIF = os.path.dirname(os.path.dirname(os.path.abspath(__file__)))
 PY = "/venv/bin/python"
 BUILD_TOOL = os.path.join(VERIF, "harness", "build_repo.py")
+SEEDBUILD = "/var/tmp/bezier-seedcheck-%d" % os.getpid()      # private: several verifications may run side by side
 
 
 def sh(cmd, **kw):
@@ -30,7 +31,7 @@ def sh(cmd, **kw):
 
 
 def build(tree):
-    env = dict(os.environ, BEZIER_REPO=tree, BEZIER_VERIF_BUILD="/var/tmp/bezier-seedcheck")
+    env = dict(os.environ, BEZIER_REPO=tree, BEZIER_VERIF_BUILD=SEEDBUILD)
     r = sh([PY, BUILD_TOOL], env=env)
     if r.returncode != 0:
         return None, r.stdout[-2000:]
@@ -77,14 +78,26 @@ def main():
         meta["steps"]["tests_patched"] = pat_summary
         meta["steps"]["new_test_failures"] = sorted(set(pat_failed) - set(clean_failed))
         demo = os.path.join(cand, "demo.py")
-        rc_clean = sh([PY, demo, clean_build], cwd=cand).returncode
-        rp = sh([PY, demo, pat_build], cwd=cand)
-        meta["steps"]["demo_clean_rc"] = rc_clean
-        meta["steps"]["demo_patched_rc"] = rp.returncode
-        meta["steps"]["demo_patched_tail"] = rp.stdout[-400:]
+        # the demonstration is run in both configurations (PYTHONPATH = the build's package tree; older demos take the
+        # build directory as argv[1]); it must pass on the clean build in every configuration in which it fails patched
+        def demo_run(bld, cfg):
+            env = dict(os.environ, PYTHONPATH=os.path.join(bld, "pkg_" + cfg), BEZIER_DEMO_CONFIG=cfg)
+            return sh([PY, demo, bld], cwd=cand, env=env)
+        rc_clean, rc_pat, tail = {}, {}, ""
+        for cfg in ("speedup", "pure"):
+            rc_clean[cfg] = demo_run(clean_build, cfg).returncode
+            rp = demo_run(pat_build, cfg)
+            rc_pat[cfg] = rp.returncode
+            if rp.returncode != 0 and not tail:
+                tail = rp.stdout[-400:]
+        failing = [c for c in rc_pat if rc_pat[c] != 0]
+        meta["steps"]["demo_rc_by_config"] = {"clean": rc_clean, "patched": rc_pat}
+        meta["steps"]["demo_clean_rc"] = max([rc_clean[c] for c in failing] or [max(rc_clean.values())])
+        meta["steps"]["demo_patched_rc"] = 1 if failing else 0
+        meta["steps"]["demo_patched_tail"] = tail
     except Exception:
         sh(["git", "-C", "/repo", "worktree", "remove", "--force", wt])
-        shutil.rmtree("/var/tmp/bezier-seedcheck", ignore_errors=True)
+        shutil.rmtree(SEEDBUILD, ignore_errors=True)
         raise
     ok = meta["steps"]["applies"] and meta["steps"]["builds"] and not meta["steps"]["new_test_failures"] \
         and meta["steps"]["demo_clean_rc"] == 0 and meta["steps"]["demo_patched_rc"] != 0
@@ -117,7 +130,7 @@ def main():
     finally:
         os.environ.pop("BEZIER_REPO", None)
         sh(["git", "-C", "/repo", "worktree", "remove", "--force", wt])
-        shutil.rmtree("/var/tmp/bezier-seedcheck", ignore_errors=True)
+        shutil.rmtree(SEEDBUILD, ignore_errors=True)
         shutil.rmtree(os.path.dirname(priv), ignore_errors=True)
     dest = os.path.join(VERIF, "seeded", name)
     os.makedirs(dest, exist_ok=True)
